@@ -65,7 +65,8 @@ Record inv1 (c : cfg) (w : world) : Prop := {
   i_handled : forall ce, handled w = Some ce -> exists e, cell w = Some e /\ ce = convert c e;
   i_reports : forall h ce, In (EReport h ce) (trace w) -> exists e, cell w = Some e /\ ce = convert c e;
   i_refine : first_raised (raises (trace w)) = cell w;
-  i_memo : handled w <> None -> dprog w = [] \/ exists r, dprog w = I_memo :: r;
+  i_memo : handled w <> None -> forall i r, dprog w = i :: r ->
+           i = I_memo \/ i = I_guard \/ exists p, i = I_end p;
   i_closes : closes (trace w) = closes_expected c w;
   i_dreported : forall ce, In (EReport HDriver ce) (trace w) -> handled w <> None }.
 
@@ -80,11 +81,12 @@ Ltac wfields := cbn [cell wslot woken gen dprog parked handled streams trace spr
 
 (* all the ways a step can go, with every branch of the step function resolved *)
 Ltac step_cases c w a :=
-  destruct a as [xcalls xpend|xce0| |xi xe|xi];
+  destruct a as [xcalls xpend|xsr0| |xi xe|xi];
   [ unfold step; destruct (dprog w) as [|xi0 xr0] eqn:Edp
   | unfold step; destruct (dprog w) as [|xi0 xr0] eqn:Edp
-  | unfold step, dstep; destruct (dprog w) as [|[| | |xn|xe0|xe0|xe0|xp] xrest] eqn:Edp;
-    [ | destruct (handled w) as [xce|] eqn:Ehd | | destruct (cell w) as [xe1|] eqn:Ecl | | |
+  | unfold step, dstep; destruct (dprog w) as [|[| | | |xn|xe0|xe0|xe0|xp] xrest] eqn:Edp;
+    [ | destruct (handled w) as [xce|] eqn:Ehd | | destruct (cell w) as [xe1|] eqn:Ecl
+      | destruct (cell w) as [xe1|] eqn:Ecl | | |
       destruct (close_code c xe0) as [xk|] eqn:Ecc | | destruct xp ]
   | unfold step; destruct (nth_error (streams w) xi) as [xs0|] eqn:Enth;
     [ destruct (sprog xs0) as [|xsi xsr] eqn:Esp | ]
@@ -105,11 +107,11 @@ Ltac destruct_world w :=
 
 (* same case analysis once the world has been split into its fields (named as in destruct_world) *)
 Ltac step_cases2 c a cl dp hd st :=
-  destruct a as [xcalls xpend|xce0| |xi xe|xi]; unfold step, dstep, sstep; wfields;
+  destruct a as [xcalls xpend|xsr0| |xi xe|xi]; unfold step, dstep, sstep; wfields;
   [ destruct dp as [|xi0 xr0]
   | destruct dp as [|xi0 xr0]
-  | destruct dp as [|[| | |xn|xe0|xe0|xe0|xp] xrest];
-    [ | destruct hd as [xce|] | | destruct cl as [xe1|] | | |
+  | destruct dp as [|[| | | |xn|xe0|xe0|xe0|xp] xrest];
+    [ | destruct hd as [xce|] | | destruct cl as [xe1|] | destruct cl as [xe1|] | | |
       destruct (close_code c xe0) as [xk|] eqn:Ecc | | destruct xp ]
   | destruct (nth_error st xi) as [xs0|] eqn:Enth;
     [ destruct xs0 as [sp sa]; wfields; destruct sp as [|xsi xsr] | ]
@@ -125,7 +127,7 @@ Ltac tail_shape H :=
 
 Ltac no_memo Hmemo :=
   let Hne := fresh "Hne" in let H0 := fresh "H0" in
-  intros Hne; exfalso; destruct (Hmemo Hne) as [H0|[? H0]]; discriminate H0.
+  intros Hne; exfalso; destruct (Hmemo Hne _ _ eq_refl) as [H0|[H0|[? H0]]]; discriminate H0.
 
 Ltac start := constructor; unfold closes_expected; wfields; try assumption.
 
@@ -154,18 +156,24 @@ Proof.
   step_cases2 c a cl dp hd st.
   - (* ABegin, idle *) start.
     + left. apply plain_poll_prog. exact Hs.
-    + intros _. right. unfold poll_prog. rewrite Hpoll. cbn. eexists. reflexivity.
+    + intros _ i r E. unfold poll_prog in E. rewrite Hpoll in E. cbn in E. inversion E. left. reflexivity.
     + rewrite Hcl. unfold poll_prog. rewrite Hpoll. cbn. reflexivity.
   - start.
-  - (* ACall, idle *) unfold call_prog. rewrite Hhan. cbn [upto_set map hop]. start.
-    + left. repeat constructor.
-    + intros _. right. eexists. reflexivity.
+  - (* AShutdown, idle *)
+    assert (Hpl : Forall plain (shutdown_prog c xsr0)).
+    { unfold shutdown_prog. apply Forall_app. split; [destruct (c_sd_guard c); repeat constructor|].
+      destruct xsr0; [apply plain_call; exact Hs | repeat constructor]. }
+    start.
+    + left. exact Hpl.
+    + intros _ i r E. unfold shutdown_prog, call_prog in E. rewrite Hhan in E.
+      destruct (c_sd_guard c); destruct xsr0; cbn in E; inversion E; eauto.
+    + rewrite Hcl. symmetry. destruct hd; [reflexivity|]. apply plain_not_convert. exact Hpl.
   - start.
   - start.
   - (* memo, handled *) start.
     + left. constructor.
     + intros h ce [E|Hin]; [inversion E; subst; apply Hhd; reflexivity | eapply Hrep; exact Hin].
-    + intros _. left. reflexivity.
+    + intros _ i r E. discriminate E.
     + intros ce _. discriminate.
   - (* memo, not handled *)
     assert (Hpl : Forall plain xrest) by (eapply shape_plain_tail; [|exact Hshape]; exact I).
@@ -188,6 +196,18 @@ Proof.
     + left. exact Hpl.
     + no_memo Hmemo.
     + rewrite Hcl. destruct hd; [reflexivity|]. symmetry. apply plain_not_convert. exact Hpl.
+  - (* guard, hit: handle_connection_error(stored error) *)
+    unfold call_prog. rewrite Hhan. cbn [upto_set map hop]. start.
+    + left. repeat constructor.
+    + intros _ i r E. inversion E. left. reflexivity.
+  - (* guard, nothing stored *)
+    assert (Hpl : Forall plain xrest) by (eapply shape_plain_tail; [|exact Hshape]; exact I).
+    assert (Hnone : hd = None).
+    { destruct hd as [ce|]; [|reflexivity]. destruct (Hhd ce eq_refl) as [e [Hc _]]. discriminate Hc. }
+    subst hd. start.
+    + left. exact Hpl.
+    + intros H. contradiction.
+    + rewrite Hcl. symmetry. apply plain_not_convert. exact Hpl.
   - (* point *)
     assert (Hpl : Forall plain xrest) by (eapply shape_plain_tail; [|exact Hshape]; exact I).
     start.
@@ -196,7 +216,8 @@ Proof.
     + rewrite Hcl. destruct hd; [reflexivity|]. symmetry. apply plain_not_convert. exact Hpl.
   - (* set *) rewrite Hhan. cbn [after_set map hop].
     assert (Hnone : hd = None).
-    { destruct hd; [|reflexivity]. exfalso. destruct Hmemo as [H0|[? H0]]; discriminate. }
+    { destruct hd; [|reflexivity]. exfalso.
+      destruct (Hmemo ltac:(discriminate) _ _ eq_refl) as [H0|[H0|[? H0]]]; discriminate H0. }
     subst hd.
     assert (Hst : exists e', store c cl xe0 = Some e' /\ (forall x, cl = Some x -> e' = x)).
     { destruct cl as [x|]; [rewrite store_some by exact Hfw | unfold store]; eexists; split; try reflexivity;
@@ -214,7 +235,8 @@ Proof.
     destruct Hshape as [Hp|[e' [Hc [Hq|Hq]]]]; [inversion Hp as [|? ? Hi ?]; destruct Hi | | discriminate Hq].
     inversion Hq; subst xe0 xrest.
     assert (Hnone : hd = None).
-    { destruct hd; [|reflexivity]. exfalso. destruct Hmemo as [H0|[? H0]]; discriminate. }
+    { destruct hd; [|reflexivity]. exfalso.
+      destruct (Hmemo ltac:(discriminate) _ _ eq_refl) as [H0|[H0|[? H0]]]; discriminate H0. }
     subst hd. start.
     + right. exists e'. auto.
     + intros h ce [E|Hin]; [discriminate|]. eapply Hrep; exact Hin.
@@ -225,7 +247,8 @@ Proof.
     destruct Hshape as [Hp|[e' [Hc [Hq|Hq]]]]; [inversion Hp as [|? ? Hi ?]; destruct Hi | | discriminate Hq].
     inversion Hq; subst xe0 xrest.
     assert (Hnone : hd = None).
-    { destruct hd; [|reflexivity]. exfalso. destruct Hmemo as [H0|[? H0]]; discriminate. }
+    { destruct hd; [|reflexivity]. exfalso.
+      destruct (Hmemo ltac:(discriminate) _ _ eq_refl) as [H0|[H0|[? H0]]]; discriminate H0. }
     subst hd. start.
     + right. exists e'. auto.
     + intros H. contradiction.
@@ -234,23 +257,24 @@ Proof.
     destruct Hshape as [Hp|[e' [Hc [Hq|Hq]]]]; [inversion Hp as [|? ? Hi ?]; destruct Hi | discriminate Hq | ].
     inversion Hq; subst xe0 xrest.
     assert (Hnone : hd = None).
-    { destruct hd; [|reflexivity]. exfalso. destruct Hmemo as [H0|[? H0]]; discriminate. }
+    { destruct hd; [|reflexivity]. exfalso.
+      destruct (Hmemo ltac:(discriminate) _ _ eq_refl) as [H0|[H0|[? H0]]]; discriminate H0. }
     subst hd. rewrite Hmm. start.
     + left. constructor.
     + intros ce E. inversion E. exists e'. auto.
     + intros h ce [E|Hin]; [inversion E; exists e'; auto | eapply Hrep; exact Hin].
-    + intros _. left. reflexivity.
+    + intros _ i r E. discriminate E.
     + cbn. rewrite Hcl, Hc. reflexivity.
     + intros ce _. discriminate.
   - (* end, pending *) start.
     + left. constructor.
     + intros h ce [E|Hin]; [discriminate | eapply Hrep; exact Hin].
-    + intros _. left. reflexivity.
+    + intros _ i r E. discriminate E.
     + intros ce [E|Hin]; [discriminate | eapply Hdr; exact Hin].
   - (* end, ready *) start.
     + left. constructor.
     + intros h ce [E|Hin]; [discriminate | eapply Hrep; exact Hin].
-    + intros _. left. reflexivity.
+    + intros _ i r E. discriminate E.
     + intros ce [E|Hin]; [discriminate | eapply Hdr; exact Hin].
   - (* ARaise, idle stream *) start.
     intros s e Hin Ha. apply upd_in in Hin. destruct Hin as [E|Hin]; [subst s; discriminate | eapply Hacc; eassumption].
@@ -362,7 +386,7 @@ Proof.
   destruct (handled w) as [ce|] eqn:Ehd.
   - destruct (i_handled c w Hi ce Ehd) as [e [Hc _]]. rewrite Hc.
     destruct (Hcase e) as [H|[c0 [H1 H2]]]; [left; exact H | right; exists e, c0; auto].
-  - destruct (dprog w) as [|[| | |n|e0|e0|e0|p] [|j r]] eqn:Edp; try (left; reflexivity).
+  - destruct (dprog w) as [|[| | | |n|e0|e0|e0|p] [|j r]] eqn:Edp; try (left; reflexivity).
     destruct (i_shape c w Hi) as [Hp|[e [Hc [Hq|Hq]]]].
     + rewrite Edp in Hp. inversion Hp as [|? ? Hx ?]. destruct Hx.
     + rewrite Edp in Hq. discriminate.
@@ -415,7 +439,8 @@ Definition std_raise : list raise_op := [ROStore; ROPoint 0; ROWake; ROPoint 1].
 Record liveness_cfg (c : cfg) : Prop := {
   lc_safety : safety_cfg c;
   lc_poll : c_poll c = std_poll;
-  lc_raise : c_raise c = std_raise }.
+  lc_raise : c_raise c = std_raise;
+  lc_guard : c_sd_guard c = true }.
 
 (* the rest of this poll can reach its end without looking at the cell again *)
 Fixpoint exposed_prog (p : list instr) : bool :=
@@ -428,7 +453,18 @@ Fixpoint exposed_prog (p : list instr) : bool :=
   | _ :: _ => false
   end.
 
-(* the next check (or the end of the poll) comes before any further register: the slot must already be armed *)
+(* ... and return Pending: the driver parks *)
+Fixpoint parks_prog (p : list instr) : bool :=
+  match p with
+  | [] => false
+  | I_end pend :: _ => pend
+  | I_memo :: r => parks_prog r
+  | I_point _ :: r => parks_prog r
+  | I_register :: r => parks_prog r
+  | _ :: _ => false
+  end.
+
+(* the next check (or the parking end of the poll) comes before any further register: the slot must already be armed *)
 Fixpoint need_slot (p : list instr) : bool :=
   match p with
   | [] => false
@@ -436,7 +472,7 @@ Fixpoint need_slot (p : list instr) : bool :=
   | I_memo :: r => need_slot r
   | I_point _ :: r => need_slot r
   | I_check :: _ => true
-  | I_end _ :: _ => true
+  | I_end pend :: _ => pend
   | _ :: _ => false
   end.
 
@@ -445,8 +481,12 @@ Fixpoint wf_prog (p : list instr) : Prop :=
   match p with
   | [] => True
   | i :: r =>
-      (exposed_prog (i :: r) = true -> need_slot (i :: r) = true) /\
-      match i with I_close _ => exposed_prog r = false /\ need_slot r = false | _ => True end /\
+      (parks_prog (i :: r) = true -> need_slot (i :: r) = true) /\
+      match i with
+      | I_close _ => exposed_prog r = false /\ parks_prog r = false /\ need_slot r = false
+      | I_guard => parks_prog r = false /\ need_slot r = false
+      | _ => True
+      end /\
       wf_prog r
   end.
 
@@ -485,17 +525,17 @@ Record inv2 (w : world) : Prop := {
   j_slot : (dprog w = [] /\ parked w = true) \/ need_slot (dprog w) = true ->
            wslot w = Some (gen w) \/ woken w = true;
   j_wake : cell w <> None ->
-           (dprog w = [] /\ parked w = true) \/ exposed_prog (dprog w) = true ->
+           (dprog w = [] /\ parked w = true) \/ parks_prog (dprog w) = true ->
            woken w = true \/ exists s, In s (streams w) /\ has_wake (sprog s) = true }.
 
-Lemma wf_head : forall p, wf_prog p -> exposed_prog p = true -> need_slot p = true.
+Lemma wf_head : forall p, wf_prog p -> parks_prog p = true -> need_slot p = true.
 Proof. intros p H He. destruct p as [|i r]; [discriminate|]. destruct H as [H _]. apply H. exact He. Qed.
 
 Lemma wf_calls : forall c calls pend, liveness_cfg c ->
   wf_prog (flat_map (call_prog c) calls ++ [I_end pend]).
 Proof.
   intros c calls pend Hl. induction calls as [|d calls IH].
-  - cbn. repeat split; reflexivity.
+  - cbn. repeat split; auto.
   - cbn [flat_map]. rewrite <- app_assoc.
     pose proof (wf_head _ IH) as Hh.
     destruct d as [|e]; cbn [call_prog].
@@ -536,11 +576,11 @@ Proof.
     + unfold poll_prog. rewrite Hpoll. cbn. intros [[H _]|H]; discriminate.
     + unfold poll_prog. rewrite Hpoll. cbn. intros _ [[H _]|H]; discriminate.
   - start2.
-  - (* ACall *) unfold call_prog. rewrite Hhan. cbn [upto_set map hop]. start2.
-    + cbn. repeat split; discriminate.
+  - (* AShutdown *) unfold shutdown_prog, call_prog. rewrite (lc_guard c Hl), Hhan. start2.
+    + destruct xsr0; cbn; repeat split; discriminate.
     + intros _. reflexivity.
-    + cbn. intros [[H _]|H]; discriminate.
-    + cbn. intros _ [[H _]|H]; discriminate.
+    + destruct xsr0; cbn; intros [[H _]|H]; discriminate.
+    + destruct xsr0; cbn; intros _ [[H _]|H]; discriminate.
   - start2.
   - start2.
   - (* memo, handled: the poll returns the error *) start2.
@@ -572,6 +612,18 @@ Proof.
     + intros _. exact Hpk.
     + intros _. apply Hslot. right. reflexivity.
     + intros Hc. contradiction Hc. reflexivity.
+  - (* guard, hit *) unfold call_prog. rewrite Hhan. cbn [upto_set map hop].
+    assert (Hpk : pk = false) by (apply Hin; discriminate). start2.
+    + cbn. repeat split; discriminate.
+    + intros _. exact Hpk.
+    + cbn. intros [[H _]|H]; discriminate.
+    + cbn. intros _ [[H _]|H]; discriminate.
+  - (* guard, nothing stored *)
+    assert (Hpk : pk = false) by (apply Hin; discriminate).
+    destruct Hwf as [Hw1 [[Hw2a Hw2b] Hw3]]. start2.
+    + intros _. exact Hpk.
+    + intros [[_ H]|H]; congruence.
+    + intros Hc. contradiction Hc. reflexivity.
   - (* point *)
     assert (Hpk : pk = false) by (apply Hin; discriminate).
     destruct Hwf as [Hw1 [_ Hw3]]. start2.
@@ -587,13 +639,13 @@ Proof.
     + cbn. intros _ [[H _]|H]; discriminate.
   - (* close *)
     assert (Hpk : pk = false) by (apply Hin; discriminate).
-    destruct Hwf as [Hw1 [[Hw2a Hw2b] Hw3]]. start2.
+    destruct Hwf as [Hw1 [[Hw2a [Hw2b Hw2c]] Hw3]]. start2.
     + intros _. exact Hpk.
     + intros [[_ H]|H]; congruence.
     + intros _ [[_ H]|H]; congruence.
   - (* close *)
     assert (Hpk : pk = false) by (apply Hin; discriminate).
-    destruct Hwf as [Hw1 [[Hw2a Hw2b] Hw3]]. start2.
+    destruct Hwf as [Hw1 [[Hw2a [Hw2b Hw2c]] Hw3]]. start2.
     + intros _. exact Hpk.
     + intros [[_ H]|H]; congruence.
     + intros _ [[_ H]|H]; congruence.
@@ -714,9 +766,11 @@ Proof.
   destruct_world w.
   step_cases2 c a cl dp hd st; try (repeat split; solve [assumption | reflexivity | apply store_not_none]).
   - (* ABegin *) repeat split; try assumption. unfold poll_prog. rewrite Hpoll. reflexivity.
-  - (* ACall *) unfold call_prog. rewrite Hhan. repeat split; try assumption; reflexivity.
+  - (* AShutdown *) unfold shutdown_prog. rewrite (lc_guard c Hl). repeat split; try assumption; reflexivity.
   - (* check hit *) rewrite Hhit. repeat split; try assumption; reflexivity.
   - (* check none *) contradiction Hc. reflexivity.
+  - (* guard hit *) unfold call_prog. rewrite Hhan. repeat split; try assumption; reflexivity.
+  - (* guard none *) contradiction Hc. reflexivity.
   - (* set *) rewrite Hhan. repeat split; try reflexivity. apply store_not_none.
   - (* close *) destruct Hwf as [_ [[H _] _]]. repeat split; assumption.
   - destruct Hwf as [_ [[H _] _]]. repeat split; assumption.
@@ -745,11 +799,12 @@ Qed.
 (* all facts fixed: the configuration is this one *)
 Definition std_cfg : cfg :=
   {| c_poll := std_poll; c_hit := [HOClose; HOConvert]; c_handle := [HOMemo; HOSet; HOClose; HOConvert];
-     c_raise := std_raise; c_first_wins := true; c_memo := true; c_close := std_close; c_convert := std_convert |}.
+     c_raise := std_raise; c_first_wins := true; c_memo := true; c_sd_guard := true;
+     c_close := std_close; c_convert := std_convert |}.
 
 Lemma liveness_cfg_eq : forall c, liveness_cfg c -> c = std_cfg.
 Proof.
-  intros c [[H1 H2 H3 H4 _ H6 H7] H8 H9]. destruct c. cbn in *. subst. reflexivity.
+  intros c [[H1 H2 H3 H4 _ H6 H7] H8 H9 H10]. destruct c. cbn in *. subst. reflexivity.
 Qed.
 
 (* ... and the poll it runs when it is polled again reports the error: after the statements of one
@@ -773,15 +828,15 @@ Proof.
   - exists 7%nat. cbn. rewrite Hconv. repeat split; try reflexivity. apply in_or_app. right. left. reflexivity.
 Qed.
 
-(* a driver call that is not a poll (shutdown, ...) and fails in the transport after the cell was set
-   returns the first error, not the one it just met *)
-Lemma failed_call_reports : forall c k w e e', liveness_cfg c -> reachable c k w ->
+(* shutdown() once the cell is set -- whether the transport would still accept the GOAWAY (r = None), has nothing
+   to write, or refuses the write with e' (r = Some e') -- returns the connection's outcome *)
+Lemma shutdown_reports : forall c k w e r, liveness_cfg c -> reachable c k w ->
   cell w = Some e -> dprog w = [] ->
-  exists n, let w' := run c (ACall e' :: repeat AStep n) w in
+  exists n, let w' := run c (AShutdown r :: repeat AStep n) w in
     dprog w' = [] /\ cell w' = Some e /\ handled w' = Some (spec_report e) /\
     last_dev (trace w') = Some (EReport HDriver (spec_report e)).
 Proof.
-  intros c k w e e' Hl Hr Hc Hd.
+  intros c k w e r Hl Hr Hc Hd.
   pose proof (lc_safety c Hl) as Hs.
   pose proof (inv1_reachable c k w Hs Hr) as Hi.
   pose proof (convert_is_spec c e (sc_convert c Hs)) as Hconv.
@@ -790,9 +845,9 @@ Proof.
   destruct_world w. subst cl dp.
   destruct hd as [ce|].
   - destruct (Hh ce eq_refl) as [e1 [Hc1 Hce]]. inversion Hc1; subst e1. rewrite Hconv in Hce. subst ce.
-    exists 1%nat. cbn. repeat split; reflexivity.
-  - exists 4%nat. cbn. rewrite Hconv.
-    destruct (first_arm std_close e) as [[|k0]|]; [destruct e| |]; repeat split; reflexivity.
+    exists 2%nat. destruct r; cbn; repeat split; reflexivity.
+  - exists 5%nat. destruct r; cbn; rewrite Hconv;
+    (destruct (first_arm std_close e) as [[|k0]|]; [destruct e| |]); repeat split; reflexivity.
 Qed.
 
 (* ------------------------------------------------------------------------------------------ *)
@@ -802,7 +857,8 @@ Qed.
 Definition old_poll : list pce_op := [POMemo; POCheck; POPoint 2; POPoint 0; PORegister; POPoint 1].
 Definition with_poll (c : cfg) (p : list pce_op) : cfg :=
   {| c_poll := p; c_hit := c_hit c; c_handle := c_handle c; c_raise := c_raise c;
-     c_first_wins := c_first_wins c; c_memo := c_memo c; c_close := c_close c; c_convert := c_convert c |}.
+     c_first_wins := c_first_wins c; c_memo := c_memo c; c_sd_guard := c_sd_guard c;
+     c_close := c_close c; c_convert := c_convert c |}.
 
 (* driver: memo, check (nothing yet), two points | stream: store, point, wake (nobody registered: lost),
    point, return | driver: register, point, Pending *)
@@ -838,6 +894,21 @@ Proof.
   cbv zeta. repeat split; try (vm_compute; congruence); try exact Hq.
   intros more Hm. rewrite stream_steps_quiescent by assumption. reflexivity.
 Qed.
+
+(* ... and so does the guard at the top of shutdown (commit 6ec7732): without it shutdown() answers Ok(()) on a
+   connection whose error the driver has already reported *)
+Definition without_guard (c : cfg) : cfg :=
+  {| c_poll := c_poll c; c_hit := c_hit c; c_handle := c_handle c; c_raise := c_raise c;
+     c_first_wins := c_first_wins c; c_memo := c_memo c; c_sd_guard := false;
+     c_close := c_close c; c_convert := c_convert c |}.
+Definition quiet_shutdown_schedule : list action :=
+  [ARaise 0 (Internal H3_FRAME_UNEXPECTED); ASStep 0; ASStep 0; ASStep 0; ASStep 0; ASStep 0;
+   ABegin [] true; AStep; AStep; AStep; AStep; AStep; AStep; AStep].
+Lemma quiet_shutdown_without_guard : forall c, liveness_cfg c ->
+  let w := run (without_guard c) quiet_shutdown_schedule (init 1) in
+  last_dev (trace w) = Some (EReport HDriver (CLocal H3_FRAME_UNEXPECTED)) /\ dprog w = [] /\
+  last_dev (trace (run (without_guard c) [AShutdown None; AStep] w)) = Some EReadyOk.
+Proof. intros c Hl. rewrite (liveness_cfg_eq c Hl). vm_compute. repeat split; reflexivity. Qed.
 
 (* ------------------------------------------------------------------------------------------ *)
 (* Part 4: the harness protocol only composes steps                                            *)
@@ -910,8 +981,8 @@ Qed.
 
 Lemma d_poll_reach : forall c k p w, reachable c k w -> reachable c k (d_poll c p w).
 Proof. intros c k p w Hr. unfold d_poll. apply d_finish_reach. constructor. exact Hr. Qed.
-Lemma d_call_reach : forall c k e w, reachable c k w -> reachable c k (d_call c e w).
-Proof. intros c k e w Hr. unfold d_call. apply d_finish_reach. constructor. exact Hr. Qed.
+Lemma d_shutdown_reach : forall c k r w, reachable c k w -> reachable c k (d_shutdown c r w).
+Proof. intros c k r w Hr. unfold d_shutdown. apply d_finish_reach. constructor. exact Hr. Qed.
 
 Lemma raise_all_reach : forall c k es w i, reachable c k w -> reachable c k (fst (raise_all c w i es)).
 Proof.
@@ -936,12 +1007,12 @@ Proof.
   assert (H2 : reachable c k (rw r2)) by (apply fold_reach; [intros; apply complete_reach; assumption | exact H1]).
   set (r3 := complete c np p1 errs r2 O).
   assert (H3 : reachable c k (rw r3)) by (apply complete_reach; exact H2).
-  pose proof (d_poll_reach c k p2 _ H3) as H4.
+  pose proof (d_shutdown_reach c k None _ (d_poll_reach c k p2 _ H3)) as H4.
   pose proof (raise_all_reach c k errs2 _ O H4) as H5.
-  destruct (raise_all c (d_poll c p2 (rw r3)) 0 errs2) as [w3a s2]. cbn [fst] in H5.
+  destruct (raise_all c (d_shutdown c None (d_poll c p2 (rw r3))) 0 errs2) as [w3a s2]. cbn [fst] in H5.
   pose proof (raise_all_reach c k errs3 _ O H5) as H6.
   destruct (raise_all c w3a 0 errs3) as [w3 s3]. cbn [fst] in H6.
-  cbn [r_final]. apply d_poll_reach. destruct e4; [apply d_call_reach|]; exact H6.
+  cbn [r_final]. apply d_poll_reach. apply d_shutdown_reach. exact H6.
 Qed.
 
 (* ------------------------------------------------------------------------------------------ *)
